@@ -224,7 +224,7 @@ def iter_stmt(A, ctx, w):
                                     continue
                                 cctx = (depth - 1, True, (True, ba, named), False, False)
                                 bctx = (depth - 1, in_def, caller, in_for, in_block)
-                                nctx = (depth - 1, True, (False, 0, False), False, False)
+                                nctx = (depth - 1, True, None, False, False)  # `caller` inside a def written in a call: not fixed
                                 for wc in range(l2 + 1):
                                     callee = gen_seq(A, cctx, wc)
                                     for wb in range(l2 - wc + 1):
@@ -345,6 +345,7 @@ class _Fin:
                 out.append(["for", "i", 2, body])
             elif k == "block":
                 body = [["text", "|"]] + self.block(s[2], scope, None, encl) + [["text", "|"]]
+                out.append(["text", "\n"])  # anonymous blocks are named after their line: one per line
                 out.append(["block", filters_of(s[1]), body])
             elif k == "call":
                 out.extend(self.call(s, scope, caller, encl))
@@ -394,7 +395,7 @@ class _Fin:
             nfl = content[3] if len(content) > 3 else (False, 0, False)
             named = []
             if nb is not None:
-                named.append(self.newdef("named", "", nfl, nb, (False, 0, False), "{", "}", outer_a=scope["a"]))
+                named.append(self.newdef("named", "", nfl, nb, None, "{", "}", outer_a=scope["a"]))
             body = [["text", "%s%d<" % (self.txt, idx)]]
             if ba >= 1:
                 body.append(["expr", "x"])
